@@ -26,8 +26,8 @@ pub static PROP: PropDef = PropDef {
     tape_len: 700,
     random_cases: |t| t.pick(80_000, 3_000_000),
     run_tape,
-    exhaustive: None,
-    run_direct: None,
+    exhaustive: Some(segmented_body_family),
+    run_direct: Some(run_direct),
     min_classes: &[("nontrivial", 200), ("server_shutdown", 500), ("abort_between_calls", 500), ("grease_on", 1000), ("config_nondefault", 1000), ("metamorphic_compared", 1000)],
     extra: None,
 };
@@ -85,6 +85,74 @@ fn semantic(sum: &WireSummary) -> (Vec<Vec<(u64, Vec<u8>)>>, Vec<(u64, u64)>, Ve
     let mut settings: Vec<(u64, u64)> = sum.settings.clone().unwrap_or_default().into_iter().filter(|(id, _)| crate::reference::settings::is_known(*id)).collect();
     settings.sort();
     (streams, settings, sum.goaways.clone())
+}
+
+
+/// The body type is the caller's choice: a buffer that is not one contiguous slice (a `Chain`, a rope, a ring buffer) must be
+/// framed like any other. Unit level: `WriteBuf::from(Frame::Data(body))` drained the way a transport does, in steps of 1, 3
+/// or everything offered; oracle: type 0x00, the shortest varint of the *whole* payload length, then exactly the payload.
+fn segmented_body_case(len: usize, cuts: &[usize], step: usize, ctx: &mut Ctx) -> Verdict {
+    use bytes::Buf;
+    ctx.eval();
+    let payload = crate::tape::prf_bytes(len as u64 + 5, len);
+    let segs = crate::tape::Segs::new(&payload, cuts);
+    let nseg = segs.0.len();
+    let mut wb = h3::quic::WriteBuf::from(h3::proto::frame::Frame::Data(segs));
+    let mut wire = Vec::new();
+    let announced = wb.remaining();
+    while wb.has_remaining() {
+        let c = wb.chunk();
+        if c.is_empty() {
+            return Err(Failure::direct("chunk() is empty although remaining() > 0", json!({"kind": "segmented_body", "len": len, "cuts": cuts, "step": step})));
+        }
+        let n = if step == 0 { c.len() } else { step.min(c.len()) };
+        wire.extend_from_slice(&c[..n]);
+        wb.advance(n);
+    }
+    let mut want = vec![0u8];
+    want.extend(crate::reference::varint::encode(len as u64).unwrap());
+    want.extend_from_slice(&payload);
+    if wire != want || announced != want.len() {
+        let head = &wire[..wire.len().min(12)];
+        return Err(Failure::direct(
+            format!("a DATA frame for a body of {len} bytes in {nseg} segments: {} bytes written (remaining() announced {announced}), starting {}; expected {} bytes starting {}", wire.len(), crate::simnet::app::hexs(head), want.len(), crate::simnet::app::hexs(&want[..want.len().min(12)])),
+            json!({"kind": "segmented_body", "len": len, "cuts": cuts, "step": step}),
+        ));
+    }
+    if nseg >= 2 {
+        ctx.class("body_in_several_segments");
+        ctx.nontrivial(&("segmented_body", len, cuts.to_vec(), step));
+    }
+    Ok(())
+}
+
+fn segmented_body_family(ctx: &mut Ctx, shard: usize, nshards: usize) -> Verdict {
+    let mut idx = 0usize;
+    for len in [0usize, 1, 2, 5, 11, 63, 64, 65, 300, 16383, 16384, 70_000] {
+        let payload = crate::tape::prf_bytes(len as u64 + 5, len);
+        let mut sets: Vec<Vec<usize>> = vec![vec![]];
+        sets.extend(crate::tape::cut_sets(&payload).into_iter().take(40));
+        for cuts in sets {
+            for step in [0usize, 1, 3] {
+                if step == 1 && len > 400 {
+                    continue;
+                }
+                idx += 1;
+                if idx % nshards == shard {
+                    segmented_body_case(len, &cuts, step, ctx)?;
+                }
+            }
+        }
+    }
+    if shard == 0 {
+        ctx.subspace("DATA frames for bodies of 0..70000 bytes held in 1..n segments (up to 40 cut sets each), drained in steps of 1 / 3 / everything", idx as u64);
+    }
+    Ok(())
+}
+
+fn run_direct(d: &serde_json::Value, ctx: &mut Ctx) -> Verdict {
+    let cuts: Vec<usize> = d["cuts"].as_array().map(|a| a.iter().map(|x| x.as_u64().unwrap_or(0) as usize).collect()).unwrap_or_default();
+    segmented_body_case(d["len"].as_u64().unwrap_or(0) as usize, &cuts, d["step"].as_u64().unwrap_or(0) as usize, ctx)
 }
 
 fn run_tape(tape: &[u16], ctx: &mut Ctx) -> Verdict {
